@@ -39,7 +39,7 @@ def floors(tier):
     return {"compared": 30000, "accepted": 8000, "rejected": 8000, "mutated_depth2plus": 1000,
             "metaschemas_self_accepted": 4, "keyword_shape_cells": 3000, "calibration_cases": 2000,
             "dialects_registered": 4, "checked_after_dialect_registration": 400,
-            "respelled_duplicates_in_unique_arrays": 500, "format_only_objections": 50, "checked_while_a_listing_is_pending": 1000, "decimal_valued_candidates": 20, "enumerated_values_respelled": 600}
+            "respelled_duplicates_in_unique_arrays": 500, "format_only_objections": 50, "checked_while_a_listing_is_pending": 1000, "decimal_valued_candidates": 20, "enumerated_values_respelled": 600, "deeply_nested_candidates": 800}
 
 
 def load_metaschemas():
@@ -254,6 +254,28 @@ def run(ctx):
                              {"definitions": {"t": {"type": sp}}}, {"additionalProperties": {"type": sp}}):
                     ctx.count("enumerated_values_respelled")
                     compare(ctx, O, d, cand, tag="(an enumerated value spelled as an array of its characters / wrapped / re-cased)")
+    # candidates nested dozens of levels deep (the metaschema refers to itself at every level): the verdict is the bottom's
+    for d in impl.DRAFTS:
+        steps = [lambda x: {"properties": {"a": x}}, lambda x: {"items": x}, lambda x: {"additionalProperties": x}, lambda x: {"items": [{}, x]},
+                 lambda x: {"dependencies": {"k": x}}, lambda x: {"patternProperties": {"^a": x}}]
+        steps += [lambda x: {"extends": [x]}, lambda x: {"disallow": [x]}, lambda x: {"type": ["null", x]}] if d == 3 else \
+                 [lambda x: {"allOf": [x]}, lambda x: {"not": x}, lambda x: {"anyOf": [{}, x]}, lambda x: {"definitions": {"t": x}}]
+        if d >= 6:
+            steps += [lambda x: {"contains": x}, lambda x: {"propertyNames": x}]
+        if d >= 7:
+            steps += [lambda x: {"if": x, "then": {}}, lambda x: {"if": {}, "else": x}]
+        for depth in (20, 35, 50, 60, 75):
+            for si, step in enumerate(steps + ["mixed"]):
+                idx += 1
+                if not ctx.mine(idx):
+                    continue
+                for bottom in ({"type": "string"}, {"minLength": -1}, {"type": 5}, {}, {"required": "a"} if d != 3 else {"required": "yes"}):
+                    cand = bottom
+                    for lvl in range(depth):
+                        f = steps[(lvl + si) % len(steps)] if step == "mixed" else step
+                        cand = f(cand)
+                    ctx.count("deeply_nested_candidates")
+                    compare(ctx, O, d, cand, tag="(nested %d levels deep)" % depth)
     rng = ctx.rng
     dialect_phase(ctx, random.Random(1111))
     for i in range(ctx.scale(1500, 25000)):
